@@ -163,6 +163,30 @@ fn run_c<C: Col>(d: &mut Dec, cx: &mut Cx, kind: u32) -> Res {
     } else {
         (gen::shape_of_kind(d, kind, dom), gen::style::<C>(d, 12))
     };
+    // auxiliary word 3: one rounded rectangle in eight is a strip (2..=5 px thin, 20..=60 long) whose corners on
+    // one side are wider and taller than the strip itself, so that every radius has to be confined: the region
+    // in which the offset areas of a rounded rectangle stop being nested (F-25 / F-26)
+    let shape = match shape {
+        Shape::RRect(rr) if d.aux_u(3, 0, 7) == 7 => {
+            let v = d.aux_u(4, 0, 8 * 41 * 4 * 20 * 9 - 1);
+            let (side, v) = (v % 8, v / 8);
+            let (long, thin) = (20 + v % 41, 2 + (v / 41) % 4);
+            let r = Size::new(long + (v / 164) % 20, thin + 1 + (v / 3280) % 9);
+            let (size, radius) = if side % 2 == 0 { (Size::new(long, thin), r) } else { (Size::new(thin, long), Size::new(r.height, r.width)) };
+            use embedded_graphics::primitives::CornerRadiiBuilder;
+            let b = CornerRadiiBuilder::new();
+            let corners = match side / 2 {
+                0 => b.bottom(radius),
+                1 => b.top(radius),
+                2 => b.left(radius),
+                _ => b.right(radius),
+            }
+            .build();
+            cx.count("rrect_strips_with_corners_larger_than_the_strip", 1);
+            Shape::RRect(RoundedRectangle::new(Rectangle::new(rr.rectangle.top_left, size), corners))
+        }
+        s => s,
+    };
     let shape = shape.translate(gen::far_offset(d));
     cx.describe(|| format!("{:?} {} [{}]", shape, gen::style_desc(&style), C::NAME));
     cx.class(match style.stroke_alignment {
